@@ -204,15 +204,17 @@ def setup_extra(ctx, report, facts, config):
     rule = "C13.FANOUT"
     wsetup = F.inh(facts, A.WORLD, "setup")
     b = F.timpl(facts, A.T_SYSTEM, A.BCS, "setup")
-    ev, ends = Q.sem(ctx, facts, b, opaque=[wsetup.key])
+    # World::setup::<X>() is looked into: what counts is <X as SystemData>::setup(world), however it is reached
+    ev, ends = Q.sem(ctx, facts, b)
+    is_decl = lambda c: c.trait == A.T_SYSDATA and c.name == "setup"
     n = []
     for e in Q.returns(ends):
-        ws = Q.calls_in(e.path.events, lambda c: c.local and c.self_head == A.WORLD and c.name == "setup", deep=False)
-        inloop = [L for L in Q.all_loops([e]) if Q.loop_contains_call(L, lambda c: c.local and c.self_head == A.WORLD and c.name == "setup")]
-        n.append(len([x for x in ws if any("BatchSystemData" in a for a in (ev.targs(x[4]) or []))]) if not inloop and len(ws) == 1 else -1)
+        ws = [x for x in Q.calls_in(e.path.events, is_decl, deep=False) if "BatchSystemData" in (ev.self_arg(x[4]) or "")]
+        inloop = [L for L in Q.all_loops([e]) if Q.loop_contains_call(L, is_decl)]
+        n.append(len(ws) if not inloop and all(x[3] and Q.strip(ev, x[3][0]) == ("param", 2) for x in ws) else -1)
     ok = bool(n) and all(k == 1 for k in n)
     report.ob(rule, "SETUP/<BatchControllerSystem as System>::setup/controller-data", ok,
-              "one World::setup::<C::BatchSystemData>() call" if ok else "controller's declared data is not set up exactly once on every way: %s" % n,
+              "<C::BatchSystemData as SystemData>::setup(world) once on every way (through World::setup or directly)" if ok else "controller's declared data is not set up exactly once on every way: %s" % n,
               site=b.loc(), config=config)
     # System::setup default -> DynamicSystemData::setup(accessor, world)
     b = F.default_method(facts, A.T_SYSTEM, "setup")
